@@ -155,6 +155,7 @@ type Exec struct {
 	unsatMemo map[uint32]*PCNode
 	symAddr bool
 	cur *State
+	cvc5Time time.Duration
 	unresolved int
 	hardNext bool
 	noCvc5 bool
@@ -378,8 +379,14 @@ func (ex *Exec) sat(pc *PCNode, extra *Term) Result {
 	// tier 2 (verdict only): cvc5 with the integer encoding of bit-vector arithmetic; very fast on
 	// the offset/length arithmetic that dominates the hard queries, which are mostly unsat
 	if !ex.noCvc5 {
+		t0 := time.Now()
 		script := ex.alt.Standalone(pc, extra, "ALL")
-		if oneShot(script, 8*time.Second, "cvc5", "--solve-bv-as-int=sum") == Unsat {
+		r2 := oneShot(script, 8*time.Second, "cvc5", "--solve-bv-as-int=sum")
+		ex.cvc5Time += time.Since(t0)
+		if dir := os.Getenv("VCHECK_DUMPSLOW"); dir != "" && time.Since(t0) > 200*time.Millisecond {
+			os.WriteFile(fmt.Sprintf("%s/cvc5_%d.smt2", dir, ex.stats.Fallbacks), []byte(script), 0o644)
+		}
+		if r2 == Unsat {
 			ex.stats.Fallbacks2++
 			return Unsat
 		}
@@ -842,7 +849,7 @@ func (ex *Exec) Explore(st0 *State, fn *ssa.Function, args []Value) {
 		ex.stats.Paths[end.kind]++
 		npaths++
 		if ex.progress && npaths%50 == 0 {
-			fmt.Fprintf(os.Stderr, "progress: %d paths %v, %d pending, %d instrs, %d queries, solver %v\n", npaths, ex.stats.Paths, len(ex.work), ex.stats.Instrs, ex.solver.NQueries, ex.solver.Time.Round(time.Millisecond))
+			fmt.Fprintf(os.Stderr, "progress: %d paths %v, %d pending, %d instrs, %d queries, solver %v, fallbacks %d (cvc5 solved %d in %v), alt %v\n", npaths, ex.stats.Paths, len(ex.work), ex.stats.Instrs, ex.solver.NQueries, ex.solver.Time.Round(time.Millisecond), ex.stats.Fallbacks, ex.stats.Fallbacks2, ex.cvc5Time.Round(time.Millisecond), ex.alt.Time.Round(time.Millisecond))
 		}
 		if end.kind == "unsupported" || end.kind == "truncated" {
 			ex.noteEnd(end.kind, end.msg+" @ "+ex.site(st))
@@ -851,6 +858,11 @@ func (ex *Exec) Explore(st0 *State, fn *ssa.Function, args []Value) {
 			ex.addSample(st)
 		}
 		if ex.stopOnViolation && len(ex.viols) > 0 {
+			ex.work = nil
+			break
+		}
+		if ex.stats.Paths["violation"] >= 300 && len(ex.viols) > 0 {
+			// the unit already has counterexamples; do not enumerate every failing path
 			ex.work = nil
 			break
 		}
